@@ -27,7 +27,8 @@ LEAN = ["Ymq.Props.C19Wied"]
 AUDIT = "Ymq.Audit.C19Wied"
 THEOREMS = ["Ymq.C19Wied." + t for t in (
     "krylov_recurrence detp4_spec_full_complexity detp4_false_zero_iff_deficient mulp_spec mulp_overflow_witness "
-    "detp4_lane_of_model detp4_lane_of_norm detz_of_detp_partial detz_early_termination_witness").split()]
+    "detp4_lane_of_model detp4_lane_of_norm detz_of_detp_partial detz_early_termination_witness "
+    "isprime64_isprimeSound select_crtprimes_spec select_crtprimes_zero_norm detz_of_detp_selected_partial").split()]
 
 # nonsingular matrices on which detz returns a wrong value because the CRT loop stops at the first repeated value
 WITNESS_ZERO = "im_det_sparse 0:21,1:-1;0:5461,1:16384,2:-1;0:5461,2:16384,3:-1;0:4926,3:16384,4:-1;0:8192,4:16384,5:-1;5:16384,6:-1;0:4645,6:16384,7:-1;0:-2432,7:16384,8:-1;0:-1,8:16384,9:-1;0:535,9:16384,10:-1;0:-1832,10:16384,11:-1;0:684,11:16384,12:-1;0:-5528,12:16384,13:-1;0:-5929,13:16384,14:-1;0:6260,14:16384"       # 15x15, det = 108 * p0*p1*p2*p3 (201 bits): detz = 0 after ONE block
@@ -96,6 +97,10 @@ def cases(tier, rng, extended=False):
         out.append(Case(f"im_mulp4 {';'.join(rows)} {p},{p},{p},{p} " + ",".join(map(str, v)), o=False, profiles=["chk"]))
     return out
 
+
+HYPOTHESES = ["IsprimeSound isprime (theorems select_crtprimes_spec, detz_of_detp_selected_partial): the primality test accepts only primes below 2^64; "
+              "discharged for the isprime64 model by isprime64_isprimeSound from property C06's isprime64_sound, i.e. under C06's three named literature "
+              "hypotheses H_psi2, H_psi5, H_psi12 (minimal strong pseudoprimes; Pomerance-Selfridge-Wagstaff, Jaeschke, Sorenson-Webster)"]
 
 MODELLED = ["matrix/intsparse.rs SparseMat::new (asserts), mulp (one lane at a time; the +1 / -1 / other passes in the code's order with the i64 "
             "overflow checks of the checked profile), norm, select_crtprimes (with the isprime64 model of C06), _detp4 / detp4 (Fibonacci start "
